@@ -43,7 +43,7 @@ RULE = ('compare / identity: every state of the liquid lattice (T x the lower of
         'to 100 MPa; at lattice states on a range limit the identity is evaluated a second time with one-sided differences) and of the steam lattice (T x log-spaced p from 100 Pa to the lowest of the two '
         'formulations\' upper limits); saturation line: every 0.1 degC of [0.01, 373.946] (compare) and [0.01, 374.15] '
         '(inverse); bounds flag: (T lattice + two outside temperatures + ulp neighbours of 0.01, 350, 374.15, 590, 800) '
-        'x (p lattice to 120 MPa + ulp neighbours of 0, 100 MPa, sat(T), b23p(T)) for cowat and supst, the T set for '
+        'x (p lattice to 120 MPa + ulp neighbours of 0, 100 MPa, sat(T), b23p(T) + the geometric mean of every two adjacent ones of these limits and 22.12 MPa) for cowat and supst, the T set for '
         'sat, a log pressure lattice + neighbours of sat(0.01) and 22.12 MPa for tsat; classifiers: the same (T, p) set '
         'restricted to t <= 350 or t > 374.15 and further than 1 % from the curves; separator: h = 0..3.5 MJ/kg step '
         '10 kJ/kg x P1 = 0.1..5 MPa step 0.1 x {single stage, every ordered pair (P1, P2) of the same grid, P2 below, equal to and above P1}; history: at every limit state (limit temperatures x limit pressures, both with ulp neighbours), the end points of tsat and a thinned lattice, up to 14 call variants x (twice in a row + every ordered pair as f, g, f) against the value after a fresh import; calls: the call lattice of BOUNDS[tier].calls (every call x every call as f, g, f; every ordered triple of the core calls), each value against the value of that call first after a fresh import.  One evaluation = one oracle '
@@ -73,7 +73,7 @@ BOUNDS = {
               'separator': 'single stage complete; every ordered two-stage pair of {0.1, 0.5, 1, 1.5, .., 5} MPa (121)', 'limits': 'complete',
               'history_lattice_T_step_degC': 50,
               'calls': K.LATTICE['quick']},
-    'thorough': {'T_step_degC': 0.5, 'pressures_per_isotherm': 80, 'sat_line_step_degC': 0.1, 'tsat_lattice_points': 10000,
+    'thorough': {'T_step_degC': 1, 'pressures_per_isotherm': 60, 'bounds_T_step_degC': 0.5, 'bounds_pressures_per_isotherm': 80, 'sat_line_step_degC': 0.1, 'tsat_lattice_points': 10000,
                  'history_lattice_T_step_degC': 10,
                  'separator': 'single stage and all 2500 ordered two-stage pairs', 'limits': 'complete',
                  'calls': K.LATTICE['thorough']},
@@ -89,8 +89,12 @@ LEVEL_NOTE = ('Continuous domain: nothing is claimed between lattice points.  Tr
 CAL = os.environ.get('VERIF_CALIBRATE') == '1'
 
 PARAMS = {
-    'quick': dict(tstep=1., npres=60, ntsat=1000, two_stage='coarse', tchunk=32, callrows=16, hist_tstep=50.),
-    'thorough': dict(tstep=0.5, npres=80, ntsat=10000, two_stage='all', tchunk=32, callrows=16, hist_tstep=10.),
+    # tstep / npres: the compare + identity lattices (the bands of ref/thermo.py are calibrated on the 1 degC x 60 lattice,
+    # which is the finest one used); btstep / bnpres: the lattices of the bounds-flag and classifier clauses
+    'quick': dict(tstep=1., npres=60, btstep=1., bnpres=60, ntsat=1000, two_stage='coarse', tchunk=32, callrows=16,
+                  hist_tstep=50.),
+    'thorough': dict(tstep=1., npres=60, btstep=0.5, bnpres=80, ntsat=10000, two_stage='all', tchunk=32, callrows=16,
+                     hist_tstep=10.),
 }
 
 TSAT_TOL = 1.0e-6           # degC, DESIGN C15 oracle: tsat(sat(t)) = t (1e-6)
@@ -409,9 +413,17 @@ def bounds_ps(T, t, npres):
         pts[p] = True
     pts[R.P_FLOOR] = True
     pts[-1.0] = True
-    for n, v in p_limits(T, t):
+    lim = p_limits(T, t)
+    for n, v in lim:
         for x in R.around(v):
             pts[x] = True
+    # one state strictly inside every interval between adjacent limits (the critical pressure counted as one), so that
+    # no interval is left empty by the log lattice however narrow it is: the geometric mean of its ends
+    pos = sorted(set([v for n, v in lim if v > 0.] + [R.PCRIT67]))
+    for a, b in zip(pos, pos[1:]):
+        m = math.sqrt(a * b)
+        if R.up(a) < m < R.down(b):
+            pts[m] = True
     return sorted(pts)
 
 
@@ -765,7 +777,7 @@ def units(tier):
     us.append(('satcmp',))
     for ch in core.chunks(sat_line(R.TCRIT67_LO), 8):
         us.append(('tsatinv', ch[0], ch[-1]))
-    bt = bounds_ts(P['tstep'])
+    bt = bounds_ts(P['btstep'])
     for ch in core.chunks(bt, P['tchunk']):
         us.append(('bounds', ch[0], ch[-1]))
     us.append(('bounds-sat',))
@@ -843,9 +855,9 @@ def _run_unit(unit, tier, rec):
             W.add(m)
             report(rec, ('tsatinv', t), v, {'clause': 'tsatinv', 't': t}, True, 'tsatinv-' + oc)
     elif kind == 'bounds':
-        ts = sub(bounds_ts(P['tstep']), unit[1], unit[2])
+        ts = sub(bounds_ts(P['btstep']), unit[1], unit[2])
         for t in ts:
-            for p in bounds_ps(T, t, P['npres']):
+            for p in bounds_ps(T, t, P['bnpres']):
                 for name in ('cowat', 'supst'):
                     v, oc = chk_bounds_tp(T, name, t, p)
                     report(rec, ('bounds', name, t, p), v, {'clause': 'bounds_tp', 'routine': name, 't': t, 'p': p},
@@ -855,7 +867,7 @@ def _run_unit(unit, tier, rec):
                        not oc.startswith('not-judged'), 'regions-' + oc)
         rec.sample({'clause': 'bounds+regions', 'temperatures': ts[:3], 'pressures_at_first': bounds_ps(T, ts[0], 4)})
     elif kind == 'bounds-sat':
-        for t in bounds_ts(P['tstep']):
+        for t in bounds_ts(P['btstep']):
             v, oc = chk_bounds_sat(T, t)
             report(rec, ('bounds-sat', t), v, {'clause': 'bounds_sat', 't': t}, True, 'bounds-sat-' + oc)
     elif kind == 'bounds-tsat':
